@@ -184,3 +184,84 @@ def wait_until(pred, timeout: float = 5.0, step: float = 0.002) -> bool:
         if time.monotonic() - t0 > timeout:
             return False
         time.sleep(step)
+
+
+class Watchdog:
+    """Runs callables in a persistent helper thread; a call that does not return
+    within the timeout is abandoned (the thread is replaced)."""
+
+    TIMEOUT = object()
+
+    def __init__(self):
+        self._start()
+
+    def _start(self):
+        import queue
+
+        self.q = queue.SimpleQueue()
+        self.t = threading.Thread(target=self._loop, args=(self.q,), daemon=True)
+        self.t.start()
+
+    @staticmethod
+    def _loop(q):
+        while True:
+            job = q.get()
+            if job is None:
+                return
+            fn, box, ev = job
+            try:
+                box.append(("ok", fn()))
+            except BaseException as e:  # noqa
+                box.append(("exc", e))
+            ev.set()
+
+    def call(self, fn, timeout: float = 10.0):
+        box: list = []
+        ev = threading.Event()
+        self.q.put((fn, box, ev))
+        if not ev.wait(timeout):
+            self._start()
+            return self.TIMEOUT
+        kind, val = box[0]
+        if kind == "exc":
+            raise val
+        return val
+
+    def stop(self):
+        self.q.put(None)
+
+
+class ScriptedPeer:
+    """A real Gateway whose peer is the harness: frames are written to / read from raw pipes."""
+
+    def __init__(self, tee: bool = True, em=None, transport: str = "pipe"):
+        em = em or gb.get_execmodel("thread")
+        if transport == "pipe":
+            io_a, io_b = pipe_ios(em, em)
+            self._send_raw = io_b.outfile.write
+            self._recv_raw = io_b.infile.read
+            self._closers = [io_b.outfile.close, io_b.infile.close]
+        else:
+            c, s = tcp_socks()
+            io_a = SocketIO(c, em)
+            self._send_raw = s.sendall
+            self._recv_raw = s.recv
+            self.sock = s
+            self._closers = [s.close]
+        self.raw_a = io_a
+        self.io_a = TeeIO(io_a) if tee else io_a
+        self.gw = execnet.Gateway(self.io_a, execnet.XSpec("popen//id=scripted"))
+
+    def feed(self, data: bytes) -> None:
+        self._send_raw(data)
+
+    def close_peer(self) -> None:
+        for c in self._closers:
+            try:
+                c()
+            except OSError:
+                pass
+
+    def shutdown(self, timeout: float = 5.0) -> None:
+        self.close_peer()
+        self.gw.join(timeout)
